@@ -796,17 +796,26 @@ class Dict(dict, base.Symbolic, pg_typing.CustomTyping):
       raise base.WritePermissionError('Cannot clear a sealed Dict.')
     value_spec = self._value_spec
     self._value_spec = None
-    old_values = list(self.sym_values())
+    old_items = list(self.sym_items())
     super().clear()
 
+    if value_spec:
+      try:
+        self.use_value_spec(value_spec, self._allow_partial)
+      except BaseException:
+        # The cleared dict is rejected by the value spec (e.g. required keys):
+        # restore the previous content.
+        super().clear()
+        for k, v in old_items:
+          super().__setitem__(k, v)
+        self._value_spec = value_spec
+        raise
+
     # Detach old values from object tree.
-    for old_value in old_values:
+    for _, old_value in old_items:
       if isinstance(old_value, base.TopologyAware):
         old_value.sym_setparent(None)
         old_value.sym_setpath(utils.KeyPath())
-
-    if value_spec:
-      self.use_value_spec(value_spec, self._allow_partial)
 
   def setdefault(self, key: Union[str, int], default: Any = None) -> Any:
     """Sets default as the value to key if not present."""
